@@ -59,7 +59,7 @@ def case_fd(col, p):
     monos = monomials(k)
     n = 0
     for p0 in p['points']:
-        p0 = list(p0)
+        p0 = [int(v) for v in p0] if p.get('integer') else list(p0)
         for eps in (1e-4, 1e-2, 1e-1):
             regs = [stencil_regime(v, eps) for v in p0]
             hs = [r[0] for r in regs]
@@ -139,7 +139,8 @@ def make_linear(k):
     B = basisB(k)
 
     def f(p, ns, pts):
-        return dadi.Spectrum(sum(float(pk) * b for pk, b in zip(p, B)))
+        gfac = 1.0 if pts is None else 1.0 + 0.0 * float(np.atleast_1d(pts)[0])
+        return dadi.Spectrum(gfac * sum(float(pk) * b for pk, b in zip(p, B)))
     dM = lambda p: np.array(B)                                  # (k, NENT)
     d2M = lambda p: np.zeros((k, k, NENT))
     return f, dM, d2M
@@ -387,8 +388,12 @@ def case_history(col, p):
     """all call sequences up to the depth bound over an alphabet of uncertainty calls that share Godambe.cache"""
     import dadi
     from dadi import Godambe
-    fA, _, _ = make_linear(3)
+    fA0, _, _ = make_linear(3)
     fB, _, _ = make_curved(3)
+
+    def fA(p, ns, pts):
+        # mildly grid-dependent, as real models are
+        return fA0(p, ns, pts) * (1.0 + (0.5 / float(np.atleast_1d(pts)[0]) if pts is not None else 0.0))
     i = np.arange(NENT, dtype=float)
     pA = [30.0, 20.0, 8.0]
     pA2 = [25.0, 28.0, 8.0]
@@ -398,6 +403,8 @@ def case_history(col, p):
     OPS = {
         'FIM(fA)': lambda: Godambe.FIM_uncert(fA, [20], pA, data, multinom=False),
         'FIM(fB)': lambda: Godambe.FIM_uncert(fB, [20], pB, data, multinom=False),
+        'FIM(fA,pts=40)': lambda: Godambe.FIM_uncert(fA, [40], pA, data, multinom=False),
+        'GIM(fA,int p0)': lambda: Godambe.GIM_uncert(fA, [20], boots, [30, 20, 8], data, multinom=False),
         'FIM(fA,multinom)': lambda: Godambe.FIM_uncert(fA, [20], pA, data, multinom=True),
         'FIM(fA,log)': lambda: Godambe.FIM_uncert(fA, [20], pA, data, multinom=False, log=True),
         'GIM(fA)': lambda: Godambe.GIM_uncert(fA, [20], boots, pA, data, multinom=False),
@@ -446,6 +453,10 @@ def run(ctx):
         pts = list(itertools.product(PVALS, repeat=k))
         for lo in range(0, len(pts), 36):
             cases.append({'kind': 'fd', 'k': k, 'points': pts[lo:lo + 36]})
+    # all-integer parameter vectors (a caller may pass p0=[3, 2]): the work copies must be floating point
+    for k in (1, 2, 3):
+        ipts = list(itertools.product([0, 1, 3, -2], repeat=k))
+        cases.append({'kind': 'fd', 'k': k, 'points': ipts, 'integer': True})
     for k in (4, 5):
         pts = [tuple(PVALS[(r + c * s) % 6] for c in range(k)) for r in range(6) for s in (0, 1, 2, 5)]
         if not ctx.quick:
